@@ -347,7 +347,7 @@ def replay(case):
     return evaluate(case).verdicts
 
 
-PARAMS = {"quick": 700, "thorough": 20000}
+PARAMS = {"quick": 1200, "thorough": 20000}
 
 
 def shard(ctx):
